@@ -14,6 +14,7 @@ from __future__ import annotations
 import ast
 
 from sa import mutate as M
+from sa import pattern as PT
 from sa.ctx import Ctx
 from sa.loader import AnalysisError, call_name, norm, own_nodes, parent
 from sa.ranges import refusal_constraints
@@ -43,10 +44,10 @@ def rule_same_hash_type(ctx: Ctx, rep: Report) -> None:
         rep.ob(rule, "ecdsa:default_ALL", norm(defs[0].value) == "ALL if psbt_in.sig_hash_type is None else psbt_in.sig_hash_type", fi.where(), f"{kw} = {norm(defs[0].value)}")
     rep.ob(rule, "ecdsa:suffix_one_byte", bool(sfx) and norm(sfx[0].value) == f"sig + {suffix_var}.to_bytes(1, 'big')", fi.where(), "signature || one hash-type byte")
     ts = ctx.func(f"{P}._taproot_signature")
-    txt = norm(ts.node)
+    txt = PT.text(ts)
     rep.ob(rule, "taproot:suffix", "hash_type = psbt_in.sig_hash_type or DEFAULT" in txt and "if not hash_type: return sig" in txt and "return sig + hash_type.to_bytes(1, 'big')" in txt, ts.where(), "DEFAULT appends nothing; any other type is appended")
     th = ctx.func(f"{P}._taproot_sig_hash")
-    txt = norm(th.node)
+    txt = PT.text(th)
     rep.ob(rule, "taproot:digest_default", "if hash_type is None: hash_type = psbt_in.sig_hash_type or DEFAULT" in txt, th.where(), "the digest's default is the same `sig_hash_type or DEFAULT`")
     for q in (f"{P}._sign_taproot_key_path", f"{P}._sign_taproot_script_path"):
         f2 = ctx.func(q)
@@ -55,7 +56,7 @@ def rule_same_hash_type(ctx: Ctx, rep: Report) -> None:
         ok = bool(calls) and not any(k.arg == "hash_type" for c in calls for k in c.keywords) and bool(st) and norm(st[0].value.args[1]) == "psbt_in"
         rep.ob(rule, f"{f2.name}:default_digest_and_suffix", ok, f2.where(), "digest computed with the input's own type and suffix written by _taproot_signature(sig, psbt_in)")
     at = ctx.func(f"{P}._assert_taproot_sig_hash_type")
-    txt = norm(at.node)
+    txt = PT.text(at)
     rep.ob(rule, "taproot:finalizer_reads_back", "hash_type = signature[-1] if len(signature) == 65 else DEFAULT" in txt and "(psbt_in.sig_hash_type or DEFAULT) != hash_type" in txt, at.where(), "the finalizer reads the suffix rule back and compares with the input's type")
 
 
@@ -89,7 +90,7 @@ def rule_finalize_verifies(ctx: Ctx, rep: Report) -> None:
     rep.ob(rule, "taproot_path:leaf_key", any(c.op == "!=" and "single_leaf_key(script)" in c.subject for c in refusal_constraints(ctx, ft)), ft.where(), "a script-path signature must be by the leaf's key")
     pv = ctx.func(f"{P}._assert_partial_sigs_verify")
     rep.ob(rule, "_assert_partial_sigs_verify:refuses", any(pol is False and isinstance(t, ast.Call) and call_name(t) == "verify_" for t, pol, _ in ctx.refusals(pv)), pv.where(), "an invalid partial signature is refused")
-    txt = norm(pv.node)
+    txt = PT.text(pv)
     rep.ob(rule, "_assert_partial_sigs_verify:own_type", "hash_type = sig[-1]" in txt and "dsa.verify_(msg_hash, pub_key, sig[:-1])" in txt, pv.where(), "each signature is verified against the digest of the type it carries, minus that byte")
 
 
@@ -159,7 +160,7 @@ def rule_message_roles(ctx: Ctx, rep: Report) -> None:
     rep.ob(rule, "assert_as_valid:recovered_key", all(any(norm(a) == "pub_key" for a in c.args) for c in sinks), av.where(), "the compared key is the one recovered from the signature")
     b3 = "btclib.bip322"
     fi = ctx.func(f"{b3}.assert_as_valid")
-    txt = norm(fi.node)
+    txt = PT.text(fi)
     g3 = ctx.cfg(fi)
     rep.ob(rule, "bip322:to_spend_binds_address", "script_pub_key = ScriptPubKey.from_address(addr).script" in txt and "spend = to_spend(msg, script_pub_key)" in txt, fi.where(), "to_spend commits to the message and the address's script")
     sc = [c for c in own_nodes(fi.node) if isinstance(c, ast.Call) and call_name(c) == "_assert_scripts"]
